@@ -514,3 +514,75 @@ func H_C05_RWMemstore() {
 	vrt.TraceBool("done", true)
 	vrt.Reach("rw/end")
 }
+
+// H_C05_TwoWriters: two writers on one key overlap (the second call runs as a block at a lock-free
+// synchronisation point of the first, or after it). Whichever order they take effect in, the log must say the
+// same: what the key reads as now is what it reads as after a kill and recovery, and after a clean restart.
+func H_C05_TwoWriters() {
+	vrt.RandPromoteBudget(0)
+	h := vNewDBEnvU(vUniverse[:1])
+	defer h.fs.Cleanup()
+	key := vUniverse[0]
+	opts := []ExtraOption{MemstoreSizeBytes(vrt.U64("opt/memstore")), WriteBufferSizeBytes(64), ReadBufferSizeBytes(64)}
+	vrt.Assert(h.open(opts...) == nil, "writers/open-no-error")
+	if vrt.Choose("pre", 2) == 1 {
+		h.put(key, []byte{9})
+	}
+	mk := func(i int) func() {
+		if vrt.Choose(vrt.K("w", i, "del"), 2) == 1 {
+			return func() { vrt.Assert(h.db.DeleteBytes(key) == nil, "writers/delete-no-error") }
+		}
+		v := []byte{byte(i)}
+		return func() { vrt.Assert(h.db.PutBytes(key, v) == nil, "writers/put-no-error") }
+	}
+	first, second := mk(1), mk(2)
+	if vrt.Symbolic() {
+		injected, inFirst, n := false, true, 0
+		vrt.OnSync(func(kind string) {
+			if injected || !inFirst || h.inBackground || vrt.LocksHeld() != 0 {
+				return
+			}
+			n++
+			if vrt.Choose(vrt.K("inj", n), 2) == 1 {
+				injected = true
+				vrt.Reach("writers/second-call-runs-inside-the-first")
+				vrt.RunAs(3, second)
+			}
+		})
+		first()
+		inFirst = false
+		if !injected {
+			second()
+		}
+		vrt.OnSync(func(kind string) {})
+	} else {
+		first()
+		second()
+	}
+	live, lerr := h.db.GetBytes(key)
+	vrt.Assert(lerr == nil || errors.Is(lerr, ErrNotFound), "writers/read-no-error")
+	h.ref[0].val, h.ref[0].present = live, lerr == nil
+
+	img, idir := h.stopImage()
+	h2 := &vDB{fs: img, dir: idir, ref: h.ref}
+	oerr := h2.open(opts...)
+	vrt.Assert(oerr == nil, "writers/open-after-kill-succeeds")
+	if oerr == nil {
+		h2.checkReads("writers/log-order-is-apply-order/after-kill-and-recovery")
+		if !vrt.Symbolic() {
+			h2.close()
+		}
+	}
+	if vrt.Symbolic() {
+		h.fs.Activate()
+		vrt.OnBlock(func(what string) { h.onBlock(what) })
+	} else {
+		img.Cleanup()
+	}
+	h.close()
+	vrt.Assert(h.open(opts...) == nil, "writers/reopen-no-error")
+	h.checkReads("writers/log-order-is-apply-order/after-clean-restart")
+	h.close()
+	vrt.TraceBool("done", true)
+	vrt.Reach("writers/end")
+}
